@@ -653,6 +653,7 @@ class Node(object):
         reneging_individual.destination = next_node.id_number
         self.individuals[reneging_individual.prev_priority_class].remove(reneging_individual)
         self.number_of_individuals -= 1
+        self.reset_class_change(reneging_individual)
         reneging_individual.queue_size_at_departure = self.number_of_individuals
         reneging_individual.exit_date = self.now
         self.write_reneging_record(reneging_individual)
